@@ -62,6 +62,19 @@ def d1(run, tu):
     ok = len(cc) == 1 and 'T:destructor != 0' in g.fact_texts(cc[0].id)
     a = [cx.render(x) for x in cx.call_args(cx.calls_in(cc[0].ast)[0])][:2] if cc else []
     run.ob('D1/no-call-without-destructor', 'gcp_finalize', 'if (destructor != NULL) destructor(origobj)', ok and a == ['destructor', 'origobj'], tu.where(tu.func('gcp_finalize')))
+    # "this decrements the reference count of the two arguments": on every path, for origobj;
+    # whenever it is non-NULL, for the destructor
+    def decrefs(var):
+        return [n.id for n in g.nodes if n.ast is not None and any(cx.callee_name(c) in ('Py_DECREF', 'Py_XDECREF', '_Py_DECREF', '_Py_XDECREF', 'Py_DecRef') and
+                                                                   cx.render(cx.call_args(c)[0]) == var for c in cx.calls_in(n.ast))]
+    do = decrefs('origobj')
+    ok = bool(do) and g.exit.id not in g.reach([g.entry.id], avoid=do)
+    run.ob('D1/finalizer-drops-the-object-on-every-path', 'gcp_finalize', 'Py_XDECREF(origobj) on all paths (also without a destructor)', ok,
+           tu.where(tu.func('gcp_finalize')), None if ok else 'a path reaches the end of gcp_finalize keeping the reference to origobj: whatever it owns (an inner ffi.gc wrapper, an exported buffer, allocator memory) is never released')
+    dd = decrefs('destructor')
+    nn = g.edges_of(lambda cn, l: (cx.render(cn.ast).replace(' ', ''), l) in (('destructor!=0', 'F'), ('destructor==0', 'T'), ('destructor', 'F'), ('!destructor', 'T')))
+    ok = bool(dd) and g.exit.id not in g.reach([g.entry.id], avoid=dd, avoid_edges=nn)
+    run.ob('D1/finalizer-drops-the-destructor-when-there-is-one', 'gcp_finalize', 'Py_DECREF(destructor) on all paths with destructor != NULL', ok, tu.where(tu.func('gcp_finalize')))
     # who calls cdatagcp_finalize: tp_finalize slot and cdata_exit only
     users = sorted({fn for fn, _c in rules.callers_of(tu, 'cdatagcp_finalize')})
     slots = slot_functions(tu)
